@@ -132,7 +132,10 @@ def check(prop: str, tier: str, seed: int) -> int:
                 if "C06_EditStable" in bad:
                     st = c["r"]["steps"][k]
                     run.violation("C06_edit|" + symptoms.c06_key(st.get("ret", ""), st.get("reparsed", "")).split("|", 1)[1]
-                                  + f"|{c['ops'][k]['f']}", "C06_EditStable",
+                                  + f"|{c['ops'][k]['f']}"
+                                  + ("|value_with_comment" if "comment" in c["ops"][k].get("vform", "") or
+                                     c["ops"][k].get("vform", "") in ("lead_block", "lead_line", "trail_block") else "")
+                                  + ("|loose_layout" if c.get("loose") else ""), "C06_EditStable",
                                   {"input": c["text"], "ops": [f"{o['f']} {o['npath']} {o['vtext']}" for o in c["ops"][:k + 1]],
                                    "output": st.get("ret"), "output2": st.get("reparsed")})
                 if bad:
